@@ -854,12 +854,30 @@ func (in *Interp) panicMessage(v Value) string {
 // onWrite is the hook for the race/footprint monitors.
 func (in *Interp) onWrite(fr *frame, p Ptr) {
 	if in.sched != nil && in.sched.monitor != nil {
-		in.sched.monitor.access(in, fr, p, true)
+		in.accessDeep(fr, p, true)
 	}
 }
 func (in *Interp) onRead(fr *frame, p Ptr) {
 	if in.sched != nil && in.sched.monitor != nil {
-		in.sched.monitor.access(in, fr, p, false)
+		in.accessDeep(fr, p, false)
+	}
+}
+
+// accessDeep records an access to a cell and, for struct and array cells, to
+// every field/element cell inside it (a whole-struct copy touches them all).
+func (in *Interp) accessDeep(fr *frame, p Ptr, write bool) {
+	in.sched.monitor.access(in, fr, p, write)
+	switch v := (*p).(type) {
+	case Struct:
+		for i := range v {
+			in.accessDeep(fr, &v[i], write)
+		}
+	case Array:
+		if len(v) <= 64 {
+			for i := range v {
+				in.accessDeep(fr, &v[i], write)
+			}
+		}
 	}
 }
 
